@@ -3,6 +3,7 @@ from __future__ import annotations
 
 import ast
 import itertools
+import numpy
 
 import z3
 
@@ -487,6 +488,34 @@ def targets():      # noqa: F811
     return _targets_before_observers() + [purity.target_observers(["data/data_set"], "DataSet observers keep no state")]
 
 
+def _count_disagreement(get_num_points, m):
+    flags = (False, True, numpy.bool_(False), numpy.bool_(True))
+    for n in (1, 2, 3):
+        for combo in itertools.product(flags, repeat=n):
+            mask = dict(enumerate(combo))
+            kept = n if m is None else sum(1 for v in combo if bool(v) == bool(m))
+
+            class Me:
+                _mask = mask
+                _num_points = n
+
+                def get_mask(self):
+                    return dict(mask)
+
+                def get_impedances(self, masked=False):
+                    return [0j] * (n if masked is None else sum(1 for v in combo if bool(v) == bool(masked)))
+                get_frequencies = get_impedances
+            try:
+                got = get_num_points(Me(), masked=m)
+            except Exception as e:      # noqa: BLE001
+                got = f"{type(e).__name__}: {e}"
+            if isinstance(got, tuple) and got[0] == "len":
+                got = len(got[1])
+            if got != kept:
+                return mask, got, kept
+    return None
+
+
 def target_derived_views():
     """the derived views get_magnitudes / get_phases / get_num_points / get_nyquist_data / get_bode_data: every part of what they
     return is computed from get_frequencies(masked=m) / get_impedances(masked=m) with the SAME m that was asked for -- so frequency,
@@ -503,6 +532,9 @@ def target_derived_views():
                 # (what the mask currently is must not matter to which subset a view asks for: both "nothing masked" and
                 # "something masked" are run)
                 _mask = dict(mask_state)
+                # (representation invariant of DataSet, established by __init__ and never reassigned: the stored count is the
+                # number of points of the full view)
+                _num_points = ("len", T.var("Z[None]"))
 
                 def get_mask(self):
                     return dict(mask_state)
@@ -529,9 +561,23 @@ def target_derived_views():
             calls.clear()
             DF.eq_check(sess, f"get_magnitudes == |get_impedances(masked)|{tag}", ns["get_magnitudes"](Me(), masked=m), abs(Zm))
             DF.eq_check(sess, f"get_phases == angle(get_impedances(masked), deg=True){tag}", ns["get_phases"](Me(), masked=m), opaque("angle")(Zm, deg=True))
-            n = ns["get_num_points"](Me(), masked=m)
-            sess.check("post", [], z3.BoolVal(isinstance(n, tuple) and n[0] == "len" and n[1].e.eq(Zm.e)), 0, label=f"get_num_points == len(get_impedances(masked)){tag}")
-            sess.check("post", [], z3.BoolVal(all(c[1] is m for c in calls) and len(calls) == 3), 0, label=f"the simple views ask for the requested subset only{tag}")
+            ns.update(_is_boolean=lambda o: isinstance(o, (bool, numpy.bool_)), sum=sum)
+            try:
+                n = ns["get_num_points"](Me(), masked=m)
+            except (TypeError, AttributeError):
+                n = None
+            if isinstance(n, tuple) and n[0] == "len":
+                sess.check("post", [], z3.BoolVal(n[1].e.eq(Zm.e)), 0, label=f"get_num_points == len(get_impedances(masked)){tag}")
+                sess.check("post", [], z3.BoolVal(all(c[1] is m for c in calls) and len(calls) in (2, 3)), 0, label=f"the simple views ask for the requested subset only{tag}")
+            else:
+                # the count is computed some other way: the symbolic argument does not apply, so the real method is run on every
+                # mask of up to three points whose flags are of the two accepted kinds (bool, numpy.bool_); a disagreement with
+                # the number of points the view keeps is a real input, agreement everywhere leaves the obligation undecided
+                bad = _count_disagreement(ns["get_num_points"], m)
+                if bad is None:
+                    raise O.Unsupported("get_num_points does not take the length of get_impedances(masked); its own counting agrees on every mask of up to three points, which proves nothing")
+                ob = sess.check("post", [], z3.BoolVal(False), 0, label=f"get_num_points == len(get_impedances(masked)){tag}")
+                ob.detail = f"witness: mask={bad[0]!r} masked={m}: get_num_points gives {bad[1]}, the view keeps {bad[2]} points"
             calls.clear()
             re_, nim = ns["get_nyquist_data"](Me(), masked=m)
             DF.eq_check(sess, f"get_nyquist_data[0] == Re Z of the requested subset{tag}", re_, Zm.real)
